@@ -142,8 +142,9 @@ pub fn line_to_cmds(line: &str) -> Vec<String> {
         }
         token.push(c);
     }
-    if !token.is_empty() {
-        result.push(token.trim().to_string());
+    let _token = token.trim().to_string();
+    if !_token.is_empty() {
+        result.push(_token);
     }
     result
 }
